@@ -68,3 +68,19 @@ def rand_error_spec(rng) -> str:
         ext = bytes(rng.choice(b"ext\";, 7") for _ in range(rng.randint(0, 5)))
         s += "x" + hexs(ext)
     return s
+
+
+def keyword_near_misses(kw: bytes):
+    """every single-character substitution / deletion / extension of a keyword's long and short form (upper case)"""
+    long = kw.upper(); short = bytes(c for c in kw if not (97 <= c <= 122)) or long
+    out = set()
+    for w in (long, short):
+        for i in range(len(w)):
+            out.add(w[:i] + (b"X" if w[i:i + 1] != b"X" else b"Y") + w[i + 1:])
+            out.add(w[:i] + w[i + 1:])
+        out.add(w + b"X"); out.add(w + b"1"); out.add(w + b"_")
+    # partial long forms
+    for k in range(len(short) + 1, len(long)):
+        out.add(long[:k])
+    out.discard(long); out.discard(short); out.discard(b"")
+    return sorted(out)
